@@ -1,6 +1,5 @@
 import NoteSeqVerif.Common.Wire
-import NoteSeqVerif.Model.C08
-import NoteSeqVerif.Model.C09
+import NoteSeqVerif.Model.C08Inst
 /-! line-protocol driver for C08 (compiled; no Mathlib).
 
 request  = `<family> <config…> <op> <args…>`   (lists travel as `<n> item*n`)
@@ -28,22 +27,6 @@ def tabOneHot (k : Nat) (dflt : Int) (steps perm : List Int) : OneHot Int where
     | none => .error "ValueError"
   default := dflt
   numSteps e := steps.getD e.toNat 1
-
-def melOneHot (mn mx : Int) : OneHot Int where
-  numClasses := C09.Gen.melNumClasses mn mx
-  encode := C09.Gen.melEncode mn mx
-  decode i := .ok (C09.Gen.melDecode mn i)
-  default := Gen.MELODY_NO_EVENT
-  numSteps _ := 1
-
-def perfOneHot (bins ms lo hi : Int) : OneHot (Nat × Int) where
-  numClasses := C09.perfNumClasses bins ms lo hi
-  encode e := C09.perfEncode bins ms lo hi e.1 e.2
-  decode i := match C09.perfDecode bins ms lo hi i with
-    | .ok (ty, v) => if perfEventOk ty v then .ok (ty, v) else .error "ValueError"
-    | .error e => .error e
-  default := (Gen.TIME_SHIFT, ms)
-  numSteps e := if e.1 = Gen.TIME_SHIFT then e.2 else 0
 
 /-- the three sequence encoders over a one-hot encoding -/
 inductive Kind where
